@@ -212,7 +212,10 @@ impl Scope {
                             //         read_number_of_ext_fields
                             //     )));
                         }
-                        let range = bits.pos()..bits.pos() + *number_of_ext_fields;
+                        // only the transmitted presence flags exist: a sender with an older
+                        // version of the type has fewer extension additions than known here
+                        let range = bits.pos()
+                            ..bits.pos() + read_number_of_ext_fields.min(*number_of_ext_fields);
                         bits.set_pos(range.start + read_number_of_ext_fields); // skip bit-field
                         *self = Scope::AllBitField(range);
                     } else {
